@@ -28,7 +28,7 @@ func (c18) ID() string { return "C18" }
 func (c18) Meta(tier string) engine.Meta {
 	return engine.Meta{
 		Level: "model_checking",
-		Rule: "all ordered pairs of values of one type, for 11 types: numbers {0,-0,±1,1+2e-9,0.1,2^53,2^53+2,±2^63,±(2^63+2048),2^63-1024,1e300,1e301,-1e300}, strings needing escapes, booleans, instants (incl. the same instant in another zone and with sub-second parts), lists of <= 2 numbers, lists of objects, string- and number-keyed maps built in every insertion order, 3-field objects in all 6 field orders, nested objects, optionals; each pair as raw values and (where Go data can express it) as converted host data; plus programs in which one value is reached through two paths ([xs, xs], {a: xs, b: xs}, …) against the equal value built from separate copies; every pair under map-iteration seeds 1..8 (all orders the runtime can produce for <= 8 entries). Oracle (premise: numeric parts identical or further apart than the tolerance, guaranteed by the value sets): x == y (language operator on singleton lists), equal String(), equal Key() / isset / get on a map keyed by x, and union / intersect / diff element identity must all coincide with the reference's structural equality; reflexive on independently built copies, symmetric; String() identical for every seed. non-trivial = every pair",
+		Rule: "all ordered pairs of values of one type, for 18 types: numbers {0,-0,±1,1+2e-9,0.1,2^53,2^53+2,±2^63,±(2^63+2048),2^63-1024,1e300,1e301,-1e300}, strings needing escapes, booleans, instants (incl. the same instant in another zone and with sub-second parts), lists of <= 2 numbers, lists of objects, string- and number-keyed maps built in every insertion order, 3-field objects in all 6 field orders, nested objects, optionals; each pair as raw values and (where Go data can express it) as converted host data; plus programs in which one value is reached through two paths ([xs, xs], {a: xs, b: xs}, …) against the equal value built from separate copies; every pair under map-iteration seeds 1..8 (all orders the runtime can produce for <= 8 entries). Oracle (premise: numeric parts identical or further apart than the tolerance, guaranteed by the value sets): x == y (language operator on singleton lists), equal String(), equal Key() / isset / get on a map keyed by x, and union / intersect / diff element identity must all coincide with the reference's structural equality; reflexive on independently built copies, symmetric; String() identical for every seed. non-trivial = every pair",
 		Bound: "values of depth <= 2; containers of width <= 2 (objects 3); 8 seeds",
 		Assumptions: []string{"probe programs are compiled once per element type on the default back end and invoked per pair"},
 	}
@@ -105,6 +105,25 @@ func c18Values() map[string][]*ref.V {
 		}
 	}
 	out["objnested"] = on
+	// more shapes: lists of strings, lists of lists, boolean- and time-keyed maps, objects holding
+	// containers, optional containers
+	out["list[str]"] = []*ref.V{ref.ListV(gen.Str), ref.ListV(gen.Str, strs("a")...), ref.ListV(gen.Str, strs("a", "b")...), ref.ListV(gen.Str, strs("b", "a")...), ref.ListV(gen.Str, strs("a\"b")...), ref.ListV(gen.Str, strs("a", "a")...), ref.ListV(gen.Str, strs("")...)}
+	ll := func(xs ...*ref.V) *ref.V { return ref.ListV(gen.List(N), xs...) }
+	l12, l21, le := ref.ListV(N, nums(1, 2)...), ref.ListV(N, nums(2, 1)...), ref.ListV(N)
+	out["list[list[num]]"] = []*ref.V{ll(), ll(le), ll(l12), ll(l21), ll(l12, l21), ll(l21, l12), ll(l12, l12), ll(le, le), ll(ref.ListV(N, nums(1)...), ref.ListV(N, nums(2)...))}
+	out["map[bool,num]"] = []*ref.V{ref.MapV(gen.Bool, N, ref.BoolV(true), ref.NumV(1)), ref.MapV(gen.Bool, N, ref.BoolV(false), ref.NumV(1)),
+		ref.MapV(gen.Bool, N, ref.BoolV(true), ref.NumV(1), ref.BoolV(false), ref.NumV(2)), ref.MapV(gen.Bool, N, ref.BoolV(false), ref.NumV(2), ref.BoolV(true), ref.NumV(1)), ref.MapV(gen.Bool, N, ref.BoolV(true), ref.NumV(2))}
+	out["map[time,str]"] = []*ref.V{ref.MapV(gen.Time, gen.Str, ref.TimeV(t0), ref.StrV("x")), ref.MapV(gen.Time, gen.Str, ref.TimeV(t0.In(tokyo)), ref.StrV("x")),
+		ref.MapV(gen.Time, gen.Str, ref.TimeV(t0.Add(time.Second)), ref.StrV("x")), ref.MapV(gen.Time, gen.Str, ref.TimeV(t0), ref.StrV("x"), ref.TimeV(t0.Add(time.Second)), ref.StrV("y")),
+		ref.MapV(gen.Time, gen.Str, ref.TimeV(t0.Add(time.Second)), ref.StrV("y"), ref.TimeV(t0.UTC()), ref.StrV("x"))}
+	var oc []*ref.V
+	for _, l := range []*ref.V{l12, l21, le} {
+		for _, m := range []*ref.V{ref.MapV(gen.Str, N, ref.StrV("a"), ref.NumV(1), ref.StrV("b"), ref.NumV(2)), ref.MapV(gen.Str, N, ref.StrV("b"), ref.NumV(2), ref.StrV("a"), ref.NumV(1)), ref.MapV(gen.Str, N)} {
+			oc = append(oc, ref.ObjV([]string{"l", "m"}, l, m), ref.ObjV([]string{"m", "l"}, m, l))
+		}
+	}
+	out["objcontainers"] = oc
+	out["maybe[list[num]]"] = []*ref.V{ref.NothingV(gen.List(N)), ref.JustV(l12), ref.JustV(l21), ref.JustV(le), ref.JustV(ref.ListV(N, nums(1, 2)...))}
 	out["maybe[num]"] = []*ref.V{ref.NothingV(N), ref.JustV(ref.NumV(1)), ref.JustV(ref.NumV(2)), ref.JustV(ref.NumV(1 + 2e-9))}
 	out["maybe[obj]"] = []*ref.V{ref.NothingV(tyOAB), ref.JustV(oab(1, "x")), ref.JustV(oba(1, "x")), ref.JustV(oab(2, "x"))}
 	return out
@@ -112,7 +131,7 @@ func c18Values() map[string][]*ref.V {
 
 func negZero() float64 { z := 0.0; return -z }
 
-var c18TypeOrder = []string{"num", "str", "bool", "time", "list[num]", "map[str,num]", "map[num,str]", "obj3", "list[obj]", "objnested", "maybe[num]", "maybe[obj]"}
+var c18TypeOrder = []string{"num", "str", "bool", "time", "list[num]", "map[str,num]", "map[num,str]", "obj3", "list[obj]", "objnested", "maybe[num]", "maybe[obj]", "list[str]", "list[list[num]]", "map[bool,num]", "map[time,str]", "objcontainers", "maybe[list[num]]"}
 
 type c18Data struct {
 	X, Y *ref.V
